@@ -306,8 +306,17 @@ async fn run_history(c: &Case, shard_tag: u32) -> Verdict {
                         break;
                     }
                     seq += 1;
-                    let payload = format!("r{}-{}", i, seq).into_bytes();
+                    // an empty datagram is a datagram too; so are large ones
+                    let mut payload = if seq % 5 == 0 { vec![] } else { format!("r{}-{}", i, seq).into_bytes() };
+                    match seq % 7 {
+                        1 if !payload.is_empty() => payload.resize(1400, b'.'),
+                        3 if !payload.is_empty() => payload.resize(9000, b'.'),
+                        _ => {}
+                    }
                     servers[i].sock.send_to(&payload, peer).await.map_err(|e| herr(e.to_string()))?;
+                    if payload.is_empty() {
+                        engine::bump("empty-reply-datagram", 1);
+                    }
                     if i == 3 && dns_is_53 && f.dns_fuzzy && nth > 0 {
                         // the real flow may have had one query fewer pending than the model
                         optional_replies.insert(payload.clone());
@@ -464,11 +473,14 @@ async fn run_history(c: &Case, shard_tag: u32) -> Verdict {
         if optional_replies.contains(p) {
             continue;
         }
+        // equal datagrams (empty ones) are counted
+        let want = expected_replies.iter().filter(|(a, b, q)| a == s && b == d && q == p).count();
         ensure!(
-            client_got.iter().any(|(a, b, q)| a == s && b == d && q == p),
+            client_got.iter().filter(|(a, b, q)| a == s && b == d && q == p).count() >= want,
             "udp:reply-lost",
-            "reply {:?} ({} -> {}) never reached the client",
-            String::from_utf8_lossy(p),
+            "reply {:?} ({} bytes, {} -> {}) never reached the client",
+            String::from_utf8_lossy(&p[..p.len().min(24)]),
+            p.len(),
             s,
             d
         );
